@@ -43,7 +43,8 @@ CHECKS = {
              "failure kind, lenient partial parses, two formats, the very same RawArgs and format objects parsed leniently and strictly, two commands sharing the "
              "parser through Config.set_args_parser); fingerprint = full vars() of the parser over its MRO + retained results. The graph closes (84 states; a state cap ends the run if a parser's state never converges), so the "
              "result holds for request sequences of any length; plus every sequence of length <= 4 (thorough 5) without dedup. Oracle: each outcome equals what a "
-             "fresh parser in a fresh process gives; results handed out earlier stay unchanged; argv list, RawArgs and every format listing/state unchanged.",
+             "fresh parser in a fresh process gives; results handed out earlier stay unchanged; argv list, RawArgs and every format listing/state unchanged. Probes: "
+             "ArgvArgs() over the process's own sys.argv, an argv list with a bytes item, a bare optional-value option whose default is a list.",
         design_ref="2/C05",
         note="Trusted: the per-request reference table computed in pristine processes; mc.fingerprint.canon as full-state fingerprint.",
         technique="explicit-state model checking of the implementation (closed state graph over request histories, differential oracle against fresh instances)",
@@ -134,7 +135,8 @@ CHECKS = {
              "unknown option, option + word} x {no tail, '--', '--' + word}. Oracle: a 25-line reference resolver written from the statement (longest named "
              "prefix, first parsable default else first, application default, undefined first token -> CannotResolveCommandException and no handler run), "
              "compared on selected command, parsed args or exception; metamorphic relations alias-for-name, appended option, appended '--' tail. Plus: one "
-             "CommandConfig object attached as sub-command to 2-3 parents (selection and arguments known by construction).",
+             "CommandConfig object attached as sub-command to 2-3 parents (selection and arguments known by construction); E3: two resolve_command() calls on one "
+             "application at the same time (source lines of default_args_parser.py, <= 1 preemption).",
         design_ref="2/C03",
         note="Trusted: the reference resolver and capacity-based parsability in props/c03.py. Unasserted where the statement is silent: lines no candidate can "
              "parse, options the selected command does not declare, '<path> --opt <word>' where the word spells the implicit default.",
@@ -285,7 +287,8 @@ CHECKS = {
              "different settings, empty text on line methods, and an explicit-state BFS over histories of set_quiet / set_verbosity / write on one output "
              "and on two sections of one decorated output (depth 5, thorough 7/6; unique text per write: gated-out text must never reach the stream, "
              "also not when another section redraws); further history operations: formatter / stream replaced on the live output (settings must survive), "
-             "quiet / verbosity set on the PARENT of the sections (whatever the section then reports gates its writes).",
+             "quiet / verbosity set on the PARENT of the sections (whatever the section then reports gates its writes), a write that fails at stream level; "
+             "NullIO with real streams and 20 800-character messages in the table; E3: two threads writing through one output (<= 1 preemption).",
         design_ref="2/C10",
         note="Trusted: the 8-line gate reference (lowest_level) and 'reaches the stream' = buffered stream contents changed. Sections get their "
              "verbosity/quiet set on themselves (inheritance from the parent output is not demanded).",
@@ -297,7 +300,8 @@ CHECKS = {
         text="Explicit-state BFS over the real EventDispatcher: every sequence of register / dispatch (with a caller-supplied event and without) / query "
              "operations up to depth 4 on the full alphabet, 5 on the core and 6 on the reduced one (thorough 5/6/8) is executed on the implementation; after every transition the call order is compared "
              "with a reference stable sort cut at the first stopping listener and every query with the reference list. Exhaustive within the "
-             "stated alphabet and depth, which covers registration-after-dispatch, equal-priority stability and a stop at every position.",
+             "stated alphabet and depth, which covers registration-after-dispatch, equal-priority stability and a stop at every position; one more run adds: the same "
+             "listener object registered again under another priority, a listener that registers another one while it is called, an Event subclass with its own stopped state.",
         design_ref="2/C12",
         note="Trusted: the 20-line reference model in props/c12.py, copy.deepcopy as state fork, fingerprint = full vars() of the dispatcher. "
              "Listener equality is by tag. Bounds: 2 events + 1 foreign, 3 priorities, depth as stated.",
